@@ -121,6 +121,17 @@ def run_program(tag, vals, ks, hp, shape, perf):
     class PB(asynq.BatchBase):
         """a user batch whose get_priority() is Python code: a hand-over point inside the scheduler's selection loop"""
 
+        def __init__(self):
+            asynq.BatchBase.__init__(self)
+            pst["n"] = pst.get("n", 0) + 1
+            self._h = pst["n"]
+
+        def __hash__(self):
+            return self._h          # small ints: set iteration visits the older (flushed) batch first
+
+        def __eq__(self, other):
+            return self is other
+
         def _try_switch_active_batch(self):
             if pst["pb"] is self:
                 pst["pb"] = PB()
@@ -132,8 +143,9 @@ def run_program(tag, vals, ks, hp, shape, perf):
 
         def get_priority(self):
             hp()
-            # never ties with a debug batch (whose priority is (0, n)): the flush order stays determined
-            return (0, 10 * len(self.items) + 5)
+            # never ties with a debug batch (whose priority is (0, n)) and loses against it: the user batch is
+            # still pending when a task flushes it directly
+            return (-1, len(self.items))
 
     class PI(asynq.BatchItemBase):
         def __init__(self, v):
@@ -180,7 +192,9 @@ def run_program(tag, vals, ks, hp, shape, perf):
 
     @A()
     def root():
-        r = yield [worker.asynq(i) for i in range(len(vals))] + [pwait.asynq(0), pkick.asynq()]
+        # (pkick before pwait: after pkick flushed the batch directly, pwait continues in the same pass and makes a
+        #  new batch pending, so one selection sees a flushed and a pending user batch)
+        r = yield [worker.asynq(i) for i in range(len(vals))] + [pkick.asynq(), pwait.asynq(0)]
         return r
 
     try:
@@ -231,8 +245,9 @@ def reset_thread_state():
 
 
 def mk(nbits):
-    def f(shapeA, shapeB, perf, ka0, ka1, va0, va1, *bits):
+    def f(shapeA, shapeB, perf, ka0, ka1, va0, va1, skip, *bits):
         sA, sB, pf = conc(shapeA, 2), conc(shapeB, 2), concb(perf)
+        skipv = conc(skip, MAXSKIP + 1)
         ksA = [conc(ka0, 2), conc(ka1, 2)]
         ksB = [0, 1]
         valsA = [va0, va1]
@@ -269,7 +284,11 @@ def mk(nbits):
             def hpA():
                 i = pos[0]
                 pos[0] += 1
-                turn.a_point(sched_bits[i] if i < len(sched_bits) else False)
+                # a sliding window: the first `skip` hand-over points of A pass without a hand-over, the next
+                # len(bits) points are governed by the schedule bits, later ones pass again - so thread B can
+                # be at an early stage while thread A is deep inside its computation, and vice versa
+                j = i - skipv
+                turn.a_point(sched_bits[j] if 0 <= j < len(sched_bits) else False)
 
             def b_main():
                 try:
@@ -306,7 +325,7 @@ def mk(nbits):
                 rec.wit("paths_with_handover")
             if turn.handovers > 1:
                 rec.wit("paths_with_2+_handovers")
-            rec.done(("c16", sA, sB, pf, tuple(ksA), tuple(sched_bits)), turn.handovers > 0)
+            rec.done(("c16", sA, sB, pf, tuple(ksA), skipv, tuple(sched_bits)), turn.handovers > 0)
             return True
         finally:
             DBG.options.COLLECT_PERF_STATS = old_perf
@@ -315,14 +334,17 @@ def mk(nbits):
     return f
 
 
+MAXSKIP = 24
+
+
 def params(nbits):
-    return ([I("shapeA", 0, 1), I("shapeB", 0, 1), B("perf"), I("ka0", 0, 1), I("ka1", 0, 1), I("va0"), I("va1")]
-            + [B("h%d" % i) for i in range(nbits)])
+    return ([I("shapeA", 0, 1), I("shapeB", 0, 1), B("perf"), I("ka0", 0, 1), I("ka1", 0, 1), I("va0"), I("va1"),
+             I("skip", 0, MAXSKIP)] + [B("h%d" % i) for i in range(nbits)])
 
 
 def conds(tier):
     q = tier == "quick"
-    nb = 8 if q else 11
+    nb = 5 if q else 8
     return [Cond("handover", mk(nb), params(nb), pin=3, builds=("C", "P"), budget=300 if q else 1500, per_path=120,
-                 family="two threads, %d symbolic hand-over bits; programs use DebugBatchItem, deduplicate, contexts, "
+                 family="two threads, hand-over window of %d symbolic bits at a symbolic offset (0..24); programs use DebugBatchItem, deduplicate, contexts, "
                         "COLLECT_PERF_STATS" % nb, encodes=ENC)]
